@@ -449,15 +449,28 @@ func runConn(c *mon.Case, r *mon.Run, dir string, p params) {
 				wconn, st, ds, half, name = sc, sStream, &down, s2c, "down"
 			}
 			withData := p.seed&2 != 0
+			reset := p.seed%7 >= 5 // the end is a reset that arrives together with the last data
+			if reset {
+				withData = true
+			}
 			half.Pause(true)
 			writeOne(wconn, half, st, 1+rng.IntN(500), ds) // (one burst stays below the smallest wire window: the wire is held)
 			half.SetErrWithData(withData)
-			half.CloseWrite()
+			if reset {
+				half.SetCut(half.Written(), memwire.CutRST)
+				r.Count("closing_phases_reset_with_last_data", 1)
+			} else {
+				half.CloseWrite()
+			}
 			half.Pause(false)
 			synctest.Wait()
 			mu.Lock()
 			e := *ds
 			mu.Unlock()
+			if reset && e.delivered < e.written && e.readErr != nil {
+				// what arrives with a reset may be dropped; it may not be altered
+				e.delivered = e.written
+			}
 			r.Count("closing_phases", 1)
 			if withData {
 				r.Count("closing_phases_end_reported_with_last_data", 1)
